@@ -22,6 +22,11 @@ type ListHistory struct {
 	Insert []int     `json:"insert"` // raw positions for Insert of the int -(i+1)
 	Pops   int       `json:"pops"`   // Pop calls at the end
 	Dels   []int     `json:"dels"`   // raw indices for Delete calls at the end
+	// Bulk > 0: that many more ints are added at the end (results of 257-1025 elements)
+	Bulk int `json:"bulk,omitempty"`
+	// Derived > 0: the list is a user-defined type embedding a List (Derived levels deep, registered
+	// with Init as the README describes) holding this content
+	Derived int `json:"derived,omitempty"`
 }
 
 type Deriv struct {
@@ -121,6 +126,12 @@ func GenC09(t *rapid.T) *C09Case {
 		names = objectDerivs
 	} else {
 		c.Recv, c.Arg = genHistory(t, false), genHistory(t, true)
+		if oneIn(t, 8, "derivedrecv") {
+			c.Recv.Derived = drawInt(t, 1, 3, "levels")
+		}
+		if oneIn(t, 30, "bulk") {
+			c.Recv.Bulk = []int{257, 300, 400, 511, 512, 513, 1025}[drawIdx(t, 7, "nbulk")]
+		}
 		names = listDerivs
 	}
 	nd := drawInt(t, 1, 2, "nderiv")
@@ -224,6 +235,14 @@ func buildFromHistory(h ListHistory) at.List {
 		if l.Count() > 0 {
 			l.Delete(raw % l.Count())
 		}
+	}
+	for i := 0; i < h.Bulk; i++ {
+		l.Add(1000 + i*3)
+	}
+	if h.Derived > 0 {
+		d := newDerivedList(1+(h.Derived-1)%3, true)
+		d.Add(l.Slice()...)
+		l = d
 	}
 	return l
 }
@@ -678,6 +697,19 @@ func applyMut(p *participant, m Mut) bool {
 }
 
 func CheckC09(c *C09Case, st *Stats) error {
+	if c.Recv.Derived > 0 && !c.ObjectMode {
+		// the pinned Concat accepts plain lists as its argument only: a derived receiver is concatenated
+		// with the (plain) argument, never with itself
+		cc := *c
+		cc.Derivs = append([]Deriv{}, c.Derivs...)
+		for i := range cc.Derivs {
+			if cc.Derivs[i].Name == "ConcatSelf" {
+				cc.Derivs[i].Name = "Concat"
+			}
+		}
+		c = &cc
+		st.Count("derived_receiver")
+	}
 	c09Latin1 = c.Latin1
 	defer func() { c09Latin1 = false }()
 	var parts []*participant
